@@ -77,15 +77,18 @@ def _record(cases, vim="/usr/bin/vim"):
             lines.append("call setreg('\"', '')")
             lines.append("call cursor(%d, %d)" % (ln, col))
             lines.append('silent! execute "normal %s\\<Esc>"' % vim_keys(c["keys"]))
-            lines.append("call add(g:res, [getline(1, '$'), line('.'), col('.'), getreg('\"')])")
+            # a buffer whose lines were all deleted reads as one empty line; only what gets written tells them apart
+            lines.append("let g:emp = 0")
+            lines.append("if line('$') == 1 && getline(1) ==# '' | silent! execute 'w! ' . fnameescape(%s) | let g:emp = (getfsize(%s) == 0) | endif" % (json.dumps(os.path.join(d, "w.txt")), json.dumps(os.path.join(d, "w.txt"))))
+            lines.append("call add(g:res, [getline(1, '$'), line('.'), col('.'), getreg('\"'), g:emp])")
         lines.append("call writefile([json_encode(g:res)], %s)" % json.dumps(outp))
         lines.append("qa!")
         open(script, "w", encoding="utf-8").write("\n".join(lines) + "\n")
         subprocess.run([vim, "-u", "NONE", "-i", "NONE", "-N", "-n", "-es", "-S", script], stdin=subprocess.DEVNULL, stdout=subprocess.DEVNULL, stderr=subprocess.DEVNULL, timeout=600)
         res = json.load(open(outp, encoding="utf-8"))
     out = []
-    for c, (ls, ln, col, reg) in zip(cases, res):
-        text = "\n".join(ls) + "\n"
+    for c, (ls, ln, col, reg, emp) in zip(cases, res):
+        text = "" if emp else "\n".join(ls) + "\n"
         # (line, byte col) -> grapheme index
         pre_lines = ls[:ln - 1]
         prefix = "".join(l + "\n" for l in pre_lines) + ls[ln - 1].encode("utf-8")[:col - 1].decode("utf-8", "ignore")
